@@ -48,7 +48,7 @@ def run_rules(mod, prog: Program):
     return ctx, rep
 
 
-PRESENCE_KEYS = ("stride-assumption", "seed-transformed", "checkpoint-seed", "draw-cached", "import-time-draw", "stream-rewind", "pool-cached", "pool-read", "vectorize-read",
+PRESENCE_KEYS = ("rename-on-error", "column-density", "fancy-accumulate", "density-unregularised", "retained-state-copy", "caller-array-write", "handed-out-logw-modified", "temperature-rebound", "stride-assumption", "seed-transformed", "checkpoint-seed", "draw-cached", "import-time-draw", "stream-rewind", "pool-cached", "pool-read", "vectorize-read",
                  "cached-mutation", "inplace:", "shared-history-list", "foreign-rebind", "alias-mutation", "errstate-underflow", "weights-dtype", "wrapper-stateless", "wrapper-branch",
                  "wrapper-argument", "logl-rewritten", "logl-dtype", "partial-row-copy", "multinomial-pvals-tolerance", "rank-index", "mode-attr-write", "shared-clusterer-rebound",
                  "spectral-floor", "row-gather", "fold-guard-jump", "fold-exact", "unpicklable-attr", "retry-loop", "iter-seed", "facade-partial-selection", "result-attr",
@@ -59,10 +59,15 @@ PRESENCE_KEYS = ("stride-assumption", "seed-transformed", "checkpoint-seed", "dr
                  "scheme-name", "cap-last", "accept-comparison", "fresh-uniform", "dispatch:", "mapper", "mode-precedence", "wrapper-no-rng", "materialised", "pool-attr", "bisect-table")
 
 
+# rules that decide through summaries of the helpers they meet (ownership lattice, label provenance): a violation they
+# report in the presence of a new helper is a statement about that helper, not a gap in their vocabulary
+GUARD_EXEMPT_RULES = {"C17.b", "C17.c", "C14.f"}
+
+
 def _is_presence_rule(ob) -> bool:
     """violations that consist in a found construct (lint-type) -- never downgraded"""
     k = ob.key or ""
-    return any(p in k for p in PRESENCE_KEYS)
+    return ob.rule in GUARD_EXEMPT_RULES or any(p in k for p in PRESENCE_KEYS)
 
 
 def _residual_new_names(prog, prog2):
@@ -85,7 +90,7 @@ def _residual_new_names(prog, prog2):
     return names
 
 
-def _references_residual(prog, ob, residual):
+def _references_residual(prog, ob, residual, prog2=None):
     import ast as _ast
 
     from sa import normalize
@@ -94,6 +99,12 @@ def _references_residual(prog, ob, residual):
     fi = next((f for f in prog.functions.values() if f.short == ob.func), None)
     if fi is None or f"{fi.module.name}:{fi.short}" not in table:
         return []
+    if prog2 is not None:
+        # what matters is what is left in the normal form of this function: helpers that were written out there are
+        # inside the rule's view, and a violation that survives that is a decision about the code
+        fi2 = next((f for f in prog2.functions.values() if f.short == ob.func and f.module.name == fi.module.name), None)
+        if fi2 is not None:
+            fi = fi2
     out = set()
     for x in _ast.walk(fi.node):
         if isinstance(x, _ast.Name) and x.id in residual:
@@ -171,7 +182,7 @@ def check(prop: str, tier: str, repo: str | None, write: bool = True) -> int:
             except Exception:
                 residual = set()
             for ob in new_violations:
-                refs = _references_residual(prog, ob, residual) if residual and not _is_presence_rule(ob) else []
+                refs = _references_residual(prog, ob, residual, locals().get("prog2")) if residual and not _is_presence_rule(ob) else []
                 if refs:
                     ob.status = "undecided"
                     rep.errors.append(f"{ob.rule}: undecided in {ob.func}: the rule's required shape was not found, but the function now works through new code "
